@@ -175,7 +175,7 @@ func uni(t *rapid.T, lo, hi int, label string) int {
 	return lo + n%(hi-lo+1)
 }
 
-var richPool = []string{"a b", "x,y", "q;r", `say "hi"`, "it's", "a&b=c", "<tag>", "100%", "k: v", "#1", "A  B", "é ü", "x|y", "[1]", "$.x", "a\\b", "- a", "yes", "null"}
+var richPool = []string{"a b", "x,y", "q;r", `say "hi"`, "it's", "a&b=c", "<tag>", "100%", "k: v", "#1", "A  B", "é ü", "x|y", "[1]", "$.x", "a\\b", "- a", "yes", "null", "1+1", "x>y", "<b>"}
 
 func safeVal(t *rapid.T, label string) string {
 	if chance(t, 25, label+"Num") {
@@ -919,13 +919,30 @@ func (g *pgen) templates() {
 			name := fmt.Sprintf("X-P%d", k)
 			r.Headers = append(r.Headers, si.Header{Name: name, Value: si.Tmpl{{Ref: &si.Ref{Kind: si.RefPre, Req: r.Name, Var: m.Var}}}})
 		}
-		if chance(t, 30, "explicitTemplater") {
+		if chance(t, 40, "explicitTemplater") {
 			r.Templater = "text"
+			// `templater: html`: the same templates through html/template. Every template this generator builds keeps
+			// its actions in HTML text context (checked, not assumed), where the interpreter knows what must come out.
+			if chance(t, 60, "htmlTemplater") && htmlModelled(r) {
+				r.Templater = si.TemplaterHTML
+			}
 		}
 		if chance(t, 30, "hasTag") {
 			r.Tag = rapid.StringMatching(`[a-z]{1,5}`).Draw(t, "tag")
 		}
 	}
+}
+
+// htmlModelled says whether the interpreter's statement of the html templater covers every template of the request.
+func htmlModelled(r *si.Request) bool {
+	ok := si.LitKeepsHTMLText(r.URI)
+	for _, h := range r.Headers {
+		ok = ok && si.LitKeepsHTMLText(h.Value)
+	}
+	if r.Body != nil {
+		ok = ok && si.LitKeepsHTMLText(*r.Body)
+	}
+	return ok
 }
 
 // plantObjectChain makes sure some step looks into a JSON object captured by an earlier
@@ -997,6 +1014,11 @@ func genProgramPlanted(t *rapid.T, concurrent bool) (si.Program, string) {
 	if ren := g.snakeNames(); ren != nil {
 		if n, ok := ren[planted]; ok {
 			planted = n
+		}
+	}
+	for i := range g.p.Requests {
+		if r := &g.p.Requests[i]; r.Templater == si.TemplaterHTML && !htmlModelled(r) {
+			r.Templater = "text"
 		}
 	}
 	return g.p, planted
